@@ -23,16 +23,17 @@ from common import hexf, unhex, close, TOL, run_driver
 import scen_c18 as sc
 
 META = {
-    'text': 'Theorems (Lean 4; pure data movement, hence generic in the value type: any array contents incl. NaN, any number of particles, compounds, tracers, rows): for the transcribed writers/readers of single_bubble_model, bent_plume_model, stratified_plume_model, dispersed_phases.save/load_particle_to/from_nc_file and ambient.create_nc_db/fill_nc_db/get_nc_data, load(save x) returns every solution array (t,y / t,q / zi,yi,zo,yo), every model parameter and every STORED particle-definition field of x exactly (sbm/bpm/spm/particles_load_save_partial, *_arrays_exact, profile_load_save), and save(load(save x)) = save x (bpm/spm/particles_resave_fixpoint). The full statement is FALSE for the code as written; the negations are proved with concrete witnesses: delta, lag_time, the k_bio/t_bio/C_pen/C_pen_T entries of user data, k_bio/t_bio/fp_type of insoluble particles and cj with other than one tracer are not stored (two different definitions give one file; load_save_id_false), save_sim raises without tracers, re-saving a reloaded single-particle model raises (sbm_resave_raises). Every run saves real simulations of all three models, compares each netCDF file name by name and value by value with the model\'s save, loads into a new object, compares every array bit for bit and every definition field, re-saves and re-loads; text export, re-attached profile and profile files likewise; each confirmed loss is reported under its own key with a stand-alone reproduction.',
-    'note': 'Trusted: Lean kernel + 3 standard axioms; my transcription of the writers/readers (tied on every run by comparing the real netCDF file — names, order, dtypes, dimensions, attributes, written cells, values — with the model\'s save, and the real loader with the model\'s load). NOT modelled, assumed by contract: netCDF4/xarray store and return arrays and attributes unchanged (f8/i4 cells, fill value for unwritten cells); " ".join/str.split are inverse on whitespace-free names; numpy.savetxt/loadtxt (%.18e round-trips a double; checked by reading the text back). The profile theorem covers the first fill of an empty data base; the interpolating re-fill branch of fill_nc_db, the Profile constructor and the re-attachment of the profile on load are sampled only (bit-for-bit: the file stores f8 and both routes run the same constructor). The delta_groups theorem carries the guard "no all-zero row" (0/0): that loss is found on the real code only. State attributes a reloaded bent-plume particle receives from LagElement.update at load time (t, x, y, z, integrate) are not definition fields and are compared only against the reader itself. The only arithmetic on the path (re-normalisation of delta_groups by the FluidMixture constructor) is compared at 1e-15 (real vs real) / 1e-11 (model vs real).',
+    'text': 'Theorems (Lean 4; pure data movement, hence generic in the value type: any array contents incl. NaN, any number of particles, compounds, tracers, rows): for the transcribed writers/readers of single_bubble_model, bent_plume_model, stratified_plume_model, dispersed_phases.save/load_particle_to/from_nc_file and ambient.create_nc_db/fill_nc_db/get_nc_data, load(save x) returns every solution array (t,y / t,q / zi,yi,zo,yo), every model parameter and every STORED particle-definition field of x exactly (load_save_id_partial = particles_load_save_partial, sbm/bpm_file/spm_load_save_partial, *_arrays_exact, profile_load_save; bpm_load_save_partial is the whole load_sim, equal up to the LagElement reset of integrate,t,x,y,z, an explicit exclusion), and save(load(save x)) = save x (particles/bpm_file/spm_resave_fixpoint; bpm_resave_after_load). The full statement is FALSE for the code as written; the negations are proved with concrete witnesses: delta, lag_time, the k_bio/t_bio/C_pen/C_pen_T entries of user data, k_bio/t_bio/fp_type of insoluble particles, a particle\'s own composition and cj with other than one tracer are not stored (two different definitions give one file; load_save_id_false), save_sim raises without tracers, re-saving a reloaded single-particle model raises (sbm_resave_raises). PIPELINES of every run: (1) particle lists of the three classes (random + every run: lists mixing soluble particles with/without user data, differing fp_type/delta/delta_groups/sigma per particle, reordered / shorter compositions, new compound names): save, file vs model, load, compare, re-save, re-load; (2) profile files: write, file vs model, read back, interpolate; (3) simulations sbm x {soluble, inert}, bpm x {soluble tracked, inert with tracers, mixed, one without tracers}, spm x {soluble, inert, mixed}: save, file vs model, load into a new object, every array bit for bit and every definition field, RE-SAVE and RE-LOAD (reached by every one of them: coverage obligations; a raise with the exact signature of a recorded defect is reported and then bypassed — cj=[0.] for no tracers, float K_T0 for the reloaded single-particle model — so that the later stages still run), text export, re-attached profile, load with the profile file absent.',
+    'note': 'Trusted: Lean kernel + 3 standard axioms; my transcription of the writers/readers (tied on every run by comparing the real netCDF file — names, order, dtypes, dimensions, attributes, written cells, values — with the model\'s save, and the real load_sim / loader with the model\'s load). NOT modelled, assumed by contract: netCDF4/xarray store and return arrays and attributes unchanged (f8/i4 cells, fill value for unwritten cells, numpy broadcasting of a length-1 source into a slice); " ".join/str.split are inverse on whitespace-free names; numpy.savetxt/loadtxt (%.18e round-trips a double; checked by reading the text back). The values LagElement.update gives integrate,t,x,y,z of a reloaded bent-plume particle are an INPUT of the model (taken from the real reloaded object): that the end-of-simulation state in the file is discarded is proved (bpm_state_reset_on_load), recorded in the histogram and not counted as a violation (state, not a definition field). The profile theorem covers the first fill of an empty data base; the interpolating re-fill branch of fill_nc_db, the Profile constructor and the re-attachment of the profile on load are sampled only (bit-for-bit). The delta_groups theorem carries the guard "no row sums to zero" (FluidWF.nozero): that loss is found on the real code only. Known-finding keys are emitted only for the documented signature (direction of the value loss; exception type + innermost tamoc frame + source line + triggering condition); anything else gets its own key. The only arithmetic on the path (re-normalisation of delta_groups by the FluidMixture constructor) is compared at 1e-15 (real vs real) / 1e-11 (model vs real).',
     'technique': 'Lean 4 proof about a hand model of the (de)serialisers + file-level differential execution against the real code',
 }
 GEN = []
 MODULES = ['TamocV.Props.C18', 'TamocV.Model.SaveLoad']
 RULE = ('seeded specs: single-particle, bent-plume and stratified-plume simulations with soluble, inert and mixed particle '
-        'lists (1-3 particles; 1-3 compounds; user chemical data for none/some/all compounds with and without '
-        'k_bio,t_bio,C_pen,C_pen_T; delta matrix; delta_groups none/built-in/dict/array; isair; sigma_correction; K, K_T, '
-        'fdis, t_hyd, lag_time, lambda_1), 0-3 tracers, tracking on/off, currents 0-0.2 m/s (particles inside and outside '
+        'lists (1-3 particles; 1-3 compounds, one possibly under a new user-defined name; user chemical data for none/some/all '
+        'compounds with and without k_bio,t_bio,C_pen,C_pen_T; delta matrix; delta_groups none/built-in/dict/array; isair; '
+        'sigma_correction; K, K_T, fdis, t_hyd, lag_time, lambda_1 — fp_type, delta, delta_groups, user_data varying from '
+        'particle to particle within one list), 0-3 tracers, tracking on/off, currents 0-0.2 m/s (particles inside and outside '
         'the plume at the end), missing profile file; plus particle lists of all three classes without a simulation and '
         'profile tables (regular/irregular depths, dissolved compounds, currents). A case is non-trivial when its '
         '(model, kind, layout of the state vector, number of rows) differs from every other case')
@@ -545,25 +546,97 @@ def diff_model(kind, a, b, tol_groups=0, state=True):
     return out
 
 
-# violation keys of the losses confirmed on the real code (each has a stand-alone reproduction below)
+# ---------------------------------------------------------------------------
+# violation keys.  A key that may be listed in known_findings.txt is emitted ONLY when the observation carries
+# the documented signature of that defect (direction of the loss / exception type + innermost tamoc frame +
+# the condition that triggers it); anything else in the same region gets a generic key of its own.
+# ---------------------------------------------------------------------------
+
+def _all_zero(x):
+    a = np.asarray(x, dtype=float)
+    return a.size > 0 and not np.isnan(a).any() and not a.any()
+
+
 def loss_key(field, a, b, orig_dbm=None):
+    """a = original value, b = reloaded value"""
     f = re.sub(r'^particles\[\d+\]\.', '', field)
-    if f == 'delta':
-        return 'not-saved:delta'
-    if f == 'lag_time':
-        return 'not-saved:lag_time'
-    if f.startswith('user_data.') and f.split('.')[1] in EXTRA_KEYS:
-        return 'not-saved:' + f
-    if f in ('insoluble.k_bio', 'insoluble.t_bio', 'insoluble.fp_type'):
-        return 'not-saved:' + f
-    if f == 'cj':
-        return 'not-saved:cj'
-    if f == 'delta_groups' and orig_dbm is not None and orig_dbm['calc_delta'] > 0 and \
-            (np.abs(orig_dbm['delta_groups']).sum(axis=1) == 0).any():
-        return 'not-restored:delta_groups:zero-row'
     if f.startswith('array:'):
         return f
-    return 'not-restored:' + f
+    generic = 'not-restored:' + f
+    if f == 'delta':
+        # documented: a user-supplied (non-zero) matrix comes back as zeros
+        return 'not-saved:delta' if (not _all_zero(a) and _all_zero(b)) else generic
+    if f == 'lag_time':
+        return 'not-saved:lag_time' if (a is False and b is True) else generic
+    if f.startswith('user_data.') and f.split('.')[1] in EXTRA_KEYS:
+        return 'not-saved:' + f if (a is not None and b is None) else generic
+    if f in ('insoluble.k_bio', 'insoluble.t_bio'):
+        return 'not-saved:' + f if (a != 0. and b == 0.) else generic
+    if f == 'insoluble.fp_type':
+        return 'not-saved:' + f if (a != 1 and b == 1) else generic
+    if f == 'cj':
+        a1, b1 = np.ravel(np.asarray(a, dtype=float)), np.ravel(np.asarray(b, dtype=float))
+        return 'not-saved:cj' if (len(a1) >= 2 and len(b1) == 1 and same(a1[-1], b1[0])) else generic
+    if f == 'delta_groups' and orig_dbm is not None and orig_dbm['calc_delta'] > 0:
+        # documented: exactly the all-zero rows come back NaN / masked, every other row is unchanged
+        A, B_ = np.asarray(a, dtype=float), np.asarray(b, dtype=float)
+        if A.shape == B_.shape:
+            zr = np.abs(A).sum(axis=1) == 0
+            if zr.any() and np.isnan(B_[zr]).all() and near(A[~zr], B_[~zr], GROUP_TOL):
+                return 'not-restored:delta_groups:zero-row'
+        return generic
+    return generic
+
+
+def tamoc_site(e):
+    """(file, function, source line) of the innermost frame inside the tamoc package, or None"""
+    import common
+    pkg = os.path.join(os.path.realpath(common.REPO), 'tamoc') + os.sep
+    inner = [f for f in traceback.extract_tb(e.__traceback__) if os.path.realpath(f.filename).startswith(pkg)]
+    if not inner:
+        return None
+    f = inner[-1]
+    return (os.path.basename(f.filename), f.name, (f.line or '').strip())
+
+
+# key, exception type, file, function, fragment of the source line, name of the condition that must hold
+KNOWN_RAISES = [
+    ('save-raises:bpm:no-tracers', 'IndexError', 'bent_plume_model.py', 'save_sim', 'cj[0] = self.cj', 'no_tracers'),
+    ('load-raises:bpm:no-profile', 'AttributeError', 'bent_plume_model.py', 'update', 'profile.get_values(', 'no_profile'),
+    ('resave-raises:sbm', 'IndexError', 'dispersed_phases.py', 'save_particle_to_nc_file', 'K_T[i] = K_T0[i]', 'k_t0_0d'),
+    ('not-restored:delta_groups:zero-row', 'TypeError', 'dbm_p.py', 'coefs', 'np.isnan(sum_term)', 'zero_row'),
+    ('save-raises:particles:user_data-keys', 'KeyError', 'dispersed_phases.py', 'save_particle_to_nc_file',
+     'user_data[user_composition[j]]', 'keys_differ'),
+]
+
+
+def raise_key(e, stage, kind, cond):
+    """key of an exception raised by the code under test at `stage` ('save', 'load', 'resave', …).
+    `cond`: dict of the triggering conditions that hold for this case."""
+    site = tamoc_site(e)
+    tname = type(e).__name__
+    if site is not None:
+        for key, t, fn, func, frag, c in KNOWN_RAISES:
+            if tname == t and site[0] == fn and site[1] == func and frag in site[2] and cond.get(c):
+                return key
+        return '%s-raises:%s:%s@%s:%s' % (stage, kind, tname, site[0], site[1])
+    return '%s-raises:%s:%s' % (stage, kind, tname)
+
+
+def raise_case(e, spec):
+    site = tamoc_site(e)
+    return {'error': '%s: %s' % (type(e).__name__, e), 'site': list(site) if site else None,
+            'trace': ''.join(traceback.format_exception(type(e), e, e.__traceback__))[-700:], 'spec': sc.jsonable(spec)}
+
+
+def report_raise(ctx, e, stage, kind, cond, where, spec):
+    key = raise_key(e, stage, kind, cond)
+    ctx.count('violation ' + key)
+    case = raise_case(e, spec)
+    if key in REPRO:
+        case['stand_alone_reproduction'] = REPRO[key]
+    ctx.violation(key, '%s: %s raises %s' % (where, stage, type(e).__name__), case)
+    return key
 
 
 _PRE = '''import numpy as np, tempfile, os
@@ -621,6 +694,22 @@ m.simulate(dbm.FluidParticle(['methane']), np.array([0., 0., 100.]), 0.005, np.a
 m.save_sim(os.path.join(d, 'a.nc'), 'prf.nc', 'info')
 m2 = single_bubble_model.Model(simfile=os.path.join(d, 'a.nc'))
 m2.save_sim(os.path.join(d, 'b.nc'), 'prf.nc', 'info')   # IndexError: K_T0 was read as a 0-d masked array, K_T0[i] fails
+'''
+_LIST = '''import numpy as np, tempfile, os
+from netCDF4 import Dataset
+from tamoc import dbm, dispersed_phases, model_share
+def PP(comp, m0): return dispersed_phases.PlumeParticle(dbm.FluidParticle(comp), np.array(m0), 290., 100., 0.8, 1e7, 34., 280.)
+def roundtrip(ps):
+    f = os.path.join(tempfile.mkdtemp(), 'p.nc'); nc = model_share.tamoc_nc_file(f, 't', 's', 'src'); nc.createDimension('params', 1)
+    for n, v in (('Ta', 280.), ('Sa', 34.), ('P', 1e7)): nc.createVariable(n, 'f8', ('params',))[0] = v
+    dispersed_phases.save_particle_to_nc_file(nc, dispersed_phases.get_chem_names(ps), ps, [1.] * len(ps)); nc.close()
+    nc = Dataset(f); out = dispersed_phases.load_particle_from_nc_file(nc)[0]; nc.close(); return out
+'''
+REPRO['not-restored:composition:reordered'] = _LIST + '''q = roundtrip([PP(['methane', 'ethane'], [1e-6, 2e-6]), PP(['ethane', 'methane'], [3e-6, 4e-6])])
+print(q[1].composition, q[1].m0)    # ['methane', 'ethane'] [3e-06 4e-06]: 3e-6 kg of ethane came back as methane
+'''
+REPRO['not-restored:composition:subset'] = REPRO['not-restored:m0:broadcast'] = _LIST + '''q = roundtrip([PP(['methane', 'ethane'], [1e-6, 2e-6]), PP(['methane'], [5e-6])])
+print(q[1].composition, q[1].m0)    # ['methane', 'ethane'] [5e-06 5e-06]: the one mass is repeated for a compound the particle never had
 '''
 REPRO['not-saved:user_data.t_bio'] = REPRO['not-saved:user_data.C_pen'] = REPRO['not-saved:user_data.C_pen_T'] = REPRO['not-saved:user_data.k_bio']
 REPRO['not-saved:insoluble.t_bio'] = REPRO['not-saved:insoluble.fp_type'] = REPRO['not-saved:insoluble.k_bio']
@@ -686,17 +775,40 @@ def dumps_equal(d1, d2):
     return not diff_files(d1, {'attrs': d2['attrs'], 'dims': d2['dims'], 'vars': d2['vars']}, skip_attr_values=DATE_ATTRS)
 
 
-def report_losses(ctx, diffs, orig_particles, where, spec, prefix=''):
+def report_losses(ctx, diffs, orig_particles, where, spec, prefix='', chem=None, skip=()):
     """turn field differences between an original and a reloaded record into violations"""
     for field, a, b in diffs:
         mobj = re.match(r'particles\[(\d+)\]\.', field)
         odbm = orig_particles[int(mobj.group(1))]['dbm'] if mobj and orig_particles else None
         f = re.sub(r'^particles\[\d+\]\.', '', field)
+        if f in skip:
+            continue
         if f == 'delta' and odbm is not None and odbm['calc_delta'] > 0:
             # group-contribution mode overwrites every delta_ij at each EOS call: the stored matrix is immaterial
             ctx.count('delta-ignored(calc_delta>0)')
             continue
-        key = prefix + loss_key(field, a, b, odbm)
+        key = None
+        if odbm is not None and odbm['sol'] and chem is not None and list(odbm['composition']) != list(chem):
+            # the particle's own composition is not the list's chem_names: the writer ignores it.  The recorded keys
+            # are emitted only on their exact signature; every other mismatch keeps its generic key.
+            own, chem_l = list(odbm['composition']), list(chem)
+            reordered = sorted(own) == sorted(chem_l) and len(set(own)) == len(own)
+            subset = len(own) < len(chem_l) and all(c in chem_l for c in own)
+            if f == 'composition' and list(b) == chem_l and reordered:
+                key = 'not-restored:composition:reordered'      # same set, other order: relabelled with chem_names
+            elif f == 'composition' and list(b) == chem_l and subset:
+                key = 'not-restored:composition:subset'         # fewer compounds: relabelled with chem_names
+            elif f == 'm0' and subset and len(own) == 1 and len(np.ravel(a)) == 1 and \
+                    same(np.ravel(b), np.repeat(np.ravel(a), len(chem_l))):
+                key = 'not-restored:m0:broadcast'               # the single mass replicated into every slot
+            elif f.startswith('dbm.') and (reordered or subset):
+                # property arrays follow the composition: necessarily in the other order / longer
+                ctx.count('consequence of the relabelled composition (%s)' % f)
+                continue
+            elif subset and f in ('delta', 'delta_groups') and np.shape(a) != np.shape(b):
+                ctx.count('consequence of the relabelled composition (%s shape)' % f)
+                continue
+        key = prefix + (key or loss_key(field, a, b, odbm))
         ctx.count('violation ' + key)
         case = {'where': where, 'field': field, 'original': a, 'reloaded': b, 'spec': sc.jsonable(spec)}
         if key in REPRO:
@@ -711,7 +823,7 @@ def zero_group_row(ps):
 
 
 def user_keys_differ(ps):
-    sets = [tuple(sorted(p['dbm']['user_data'] and [u['name'] for u in p['dbm']['user_data']])) for p in ps
+    sets = [tuple(sorted(u['name'] for u in p['dbm']['user_data'])) for p in ps
             if p['dbm']['sol'] and p['dbm']['user_data']]
     return len(set(sets)) > 1
 
@@ -724,6 +836,7 @@ def check_particle_list(ctx, job, tmp, idx, spec):
     recs = [abs_particle(o, ptype) for o in objs]
     ctx.count('list ptype=%d %s' % (ptype, spec['kind']))
     args = [N(ptype)] + names(chem) + enc_particles(recs) + [V(KT0), F(spec['Ta'])]
+    where = 'particle list (class %d)' % ptype
 
     def write(path, particles, chem_names, K_T0):
         nc = model_share.tamoc_nc_file(path, 'particles', 'none', 'none')
@@ -740,68 +853,60 @@ def check_particle_list(ctx, job, tmp, idx, spec):
                 'vars': [v for v in d['vars'] if v['name'] not in ('Ta', 'Sa', 'P')]}
 
     f1 = os.path.join(tmp, 'pl%d.nc' % idx)
-    try:
-        with sc.quiet():
-            write(f1, objs if ptype else objs[0], chem, KT0 if ptype else KT0[0])
-    except Exception as e:
-        key = 'save-raises:particles:user_data-keys' if user_keys_differ(recs) else 'save-raises:particles'
-        ctx.count('violation ' + key)
-        case = {'error': '%s: %s' % (type(e).__name__, e), 'spec': sc.jsonable(spec)}
-        if key in REPRO:
-            case['stand_alone_reproduction'] = REPRO[key]
-        ctx.violation(key, 'save_particle_to_nc_file raises %s on a valid particle list' % type(e).__name__, case)
-        job.add('SaveLoad.particles.save', args, 'raises', {'what': 'particle list %d' % idx})
-        return
-    d1 = dump_nc(f1)
-    job.add('SaveLoad.particles.save', args, 'file', {'real': section(d1), 'what': 'particle list %d' % idx, 'skip': ()})
-    nc = Dataset(f1)
-    try:
-        with sc.quiet():
-            loaded, chem2 = dispersed_phases.load_particle_from_nc_file(nc)
-    except Exception as e:
-        key = 'not-restored:delta_groups:zero-row' if zero_group_row(recs) else 'load-raises:particles'
-        case = {'error': '%s: %s' % (type(e).__name__, e), 'spec': sc.jsonable(spec)}
-        if key in REPRO:
-            case['stand_alone_reproduction'] = REPRO[key]
-        ctx.count('violation ' + key)
-        ctx.violation(key, 'load_particle_from_nc_file raises %s on a file the writer produced' % type(e).__name__, case)
-        return
-    finally:
-        nc.close()
-    recs2 = [abs_particle(o, ptype) for o in loaded]
-    job.add('SaveLoad.particles.load', args, 'particles', {'real': recs2, 'chem': list(chem2), 'what': 'particle list %d' % idx})
-    diffs = diff_particles(recs, recs2, GROUP_TOL, state=True)
-    if list(chem2) != list(chem):
-        diffs.append(('composition', chem, list(chem2)))
-    report_losses(ctx, diffs, recs, 'particle list (class %d)' % ptype, spec)
-    # re-save what was loaded, reload: nothing may change any more
     f2 = os.path.join(tmp, 'pl%d_b.nc' % idx)
     try:
-        with sc.quiet():
-            write(f2, loaded if ptype else loaded[0], chem2,
-                  np.array([q.K_T for q in loaded]) if ptype else float(loaded[0].K_T))
-        d2 = dump_nc(f2)
-        job.add('SaveLoad.particles.resave', args, 'file', {'real': section(d2), 'what': 're-saved particle list %d' % idx, 'skip': ()})
-        soft = [x for x in diff_files(section(d1), section(d2)) if 'delta_groups' not in x]
-        if soft:
-            ctx.violation('resave-differs:particles', 'saving the reloaded particle list gives a different file',
-                          {'differences': soft[:5], 'spec': sc.jsonable(spec)})
-        nc = Dataset(f2)
         try:
             with sc.quiet():
-                loaded3, _c = dispersed_phases.load_particle_from_nc_file(nc)
+                write(f1, objs if ptype else objs[0], chem, KT0 if ptype else KT0[0])
+        except Exception as e:
+            report_raise(ctx, e, 'save', 'particles', {'keys_differ': user_keys_differ(recs)}, where, spec)
+            job.add('SaveLoad.particles.save', args, 'raises', {'what': 'particle list %d' % idx})
+            return
+        d1 = dump_nc(f1)
+        job.add('SaveLoad.particles.save', args, 'file', {'real': section(d1), 'what': 'particle list %d' % idx, 'skip': ()})
+        nc = Dataset(f1)
+        try:
+            with sc.quiet():
+                loaded, chem2 = dispersed_phases.load_particle_from_nc_file(nc)
+        except Exception as e:
+            report_raise(ctx, e, 'load', 'particles', {'zero_row': zero_group_row(recs)}, where, spec)
+            return
         finally:
             nc.close()
-        d3 = diff_particles(recs2, [abs_particle(o, ptype) for o in loaded3], GROUP_TOL, state=True)
-        for field, a, b in d3:
-            ctx.violation('reload-differs:' + field, 'second reload differs from the first', {'field': field, 'first': a, 'second': b, 'spec': sc.jsonable(spec)})
-    except Exception as e:
-        ctx.violation('resave-raises:particles', 'saving / reloading the reloaded particle list raises %s' % type(e).__name__,
-                      {'error': '%s: %s' % (type(e).__name__, e), 'trace': traceback.format_exc()[-600:], 'spec': sc.jsonable(spec)})
-    ctx.evaluations += 1
-    for f in (f1, f2):
-        if os.path.exists(f):
-            os.remove(f)
+        recs2 = [abs_particle(o, ptype) for o in loaded]
+        job.add('SaveLoad.particles.load', args, 'particles', {'real': recs2, 'chem': list(chem2), 'what': 'particle list %d' % idx})
+        diffs = diff_particles(recs, recs2, GROUP_TOL, state=True)
+        if list(chem2) != list(chem):
+            diffs.append(('chem_names', chem, list(chem2)))
+        report_losses(ctx, diffs, recs, where, spec, chem=chem)
+        # re-save what was loaded, reload: nothing may change any more
+        try:
+            with sc.quiet():
+                write(f2, loaded if ptype else loaded[0], chem2,
+                      np.array([q.K_T for q in loaded]) if ptype else float(loaded[0].K_T))
+            d2 = dump_nc(f2)
+            job.add('SaveLoad.particles.resave', args, 'file', {'real': section(d2), 'what': 're-saved particle list %d' % idx, 'skip': ()})
+            soft = [x for x in diff_files(section(d1), section(d2)) if 'delta_groups' not in x]
+            if soft:
+                ctx.violation('resave-differs:particles', 'saving the reloaded particle list gives a different file',
+                              {'differences': soft[:5], 'spec': sc.jsonable(spec)})
+            nc = Dataset(f2)
+            try:
+                with sc.quiet():
+                    loaded3, _c = dispersed_phases.load_particle_from_nc_file(nc)
+            finally:
+                nc.close()
+            for field, a, b in diff_particles(recs2, [abs_particle(o, ptype) for o in loaded3], GROUP_TOL, state=True):
+                ctx.violation('reload-differs:' + field, 'second reload differs from the first',
+                              {'field': field, 'first': a, 'second': b, 'spec': sc.jsonable(spec)})
+            ctx.count('list re-save and re-load reached')
+        except Exception as e:
+            report_raise(ctx, e, 'resave', 'particles', {}, where, spec)
+        ctx.evaluations += 1
+    finally:
+        for f in (f1, f2):
+            if os.path.exists(f):
+                os.remove(f)
 
 
 def check_profile(ctx, job, tmp, idx, ps):
@@ -860,28 +965,53 @@ def farfield_pairs(m, m2):
     return out
 
 
+def is_0d(x):
+    return isinstance(x, np.ndarray) and np.ndim(x) == 0
+
+
+def pstates(m):
+    """the state LagElement.update left in the particles of a (re)loaded bent-plume model"""
+    out = [N(len(m.particles))]
+    for p in m.particles:
+        out += [B(bool(p.integrate)), F(fnum(p.t)), F(fnum(p.x)), F(fnum(p.y)), F(fnum(p.z))]
+    return out
+
+
 def check_sim(ctx, job, cdir, kind, m, spec, tag):
-    """save -> file vs model -> load -> compare -> re-save -> re-load -> compare; text export; profile"""
-    from netCDF4 import Dataset
-    from tamoc import dispersed_phases, single_bubble_model, bent_plume_model, stratified_plume_model
+    """save -> file vs model -> load -> compare -> re-save -> re-load -> compare; text export; profile.
+    Returns the set of stages reached.  A raise with the signature of a recorded defect is reported under its key and
+    the pipeline continues with that defect bypassed (documented at each site)."""
+    from tamoc import single_bubble_model, bent_plume_model, stratified_plume_model
     Model = {'sbm': single_bubble_model.Model, 'bpm': bent_plume_model.Model, 'spm': stratified_plume_model.Model}[kind]
-    rec = ABS[kind](m)
+    reached = set()
     where = '%s simulation (%s)' % (kind, spec['kind'])
     f1 = os.path.join(cdir, 'sim.nc')
     ntr = len(spec.get('tracers', [1]))
+    skip = ()
+    rec_orig = ABS[kind](m)
     try:
         with sc.quiet():
             m.save_sim(f1, 'prf.nc', 'C18 profile info')
     except Exception as e:
-        key = 'save-raises:bpm:no-tracers' if (kind == 'bpm' and ntr == 0) else 'save-raises:' + kind
-        ctx.count('violation ' + key)
-        case = {'error': '%s: %s' % (type(e).__name__, e), 'trace': traceback.format_exc()[-500:], 'spec': sc.jsonable(spec)}
-        if key in REPRO:
-            case['stand_alone_reproduction'] = REPRO[key]
-        ctx.violation(key, '%s: save_sim raises %s' % (where, type(e).__name__), case)
-        job.add('SaveLoad.%s.save' % kind, enc_header({'title': 'x', 'summary': 'prf.nc', 'source': 'i', 'created': 'c', 'modified': 'm'}) + ENC[kind](rec),
+        key = report_raise(ctx, e, 'save', kind, {'no_tracers': kind == 'bpm' and ntr == 0 and len(np.ravel(m.cj)) == 0}, where, spec)
+        job.add('SaveLoad.%s.save' % kind, enc_header({'title': 'x', 'summary': 'prf.nc', 'source': 'i', 'created': 'c', 'modified': 'm'}) + ENC[kind](rec_orig),
                 'raises', {'what': tag})
-        return
+        if key != 'save-raises:bpm:no-tracers':
+            return reached
+        # bypass of the recorded defect: give the writer ONE tracer concentration to store (the simulation has no
+        # tracer; `cj` is then excluded from the comparisons), so that the rest of the pipeline is still exercised
+        m.cj = np.zeros(1)
+        skip = ('cj',)
+        ctx.count('bypass: cj = [0.] for a simulation without tracers')
+        f1 = os.path.join(cdir, 'simb.nc')        # the failed writer left the first file open
+        try:
+            with sc.quiet():
+                m.save_sim(f1, 'prf.nc', 'C18 profile info')
+        except Exception as e2:
+            report_raise(ctx, e2, 'save', kind, {}, where + ' (cj bypassed)', spec)
+            return reached
+    reached.add('save')
+    rec = ABS[kind](m)
     d1 = dump_nc(f1)
     h = header_of(d1)
     args = enc_header(h) + ENC[kind](rec)
@@ -891,29 +1021,26 @@ def check_sim(ctx, job, cdir, kind, m, spec, tag):
         with sc.quiet():
             m2 = Model(simfile=f1)
     except Exception as e:
-        key = 'not-restored:delta_groups:zero-row' if zero_group_row(rec['particles']) else 'load-raises:' + kind
-        ctx.count('violation ' + key)
-        case = {'error': '%s: %s' % (type(e).__name__, e), 'trace': traceback.format_exc()[-600:], 'spec': sc.jsonable(spec)}
-        if key in REPRO:
-            case['stand_alone_reproduction'] = REPRO[key]
-        ctx.violation(key, '%s: load_sim raises %s on the file save_sim wrote' % (where, type(e).__name__), case)
-        return
-    nc = Dataset(f1)
-    try:
-        with sc.quiet():
-            direct, _chem = dispersed_phases.load_particle_from_nc_file(nc)
-    finally:
-        nc.close()
-    direct = [abs_particle(o, PTYPE[kind]) for o in direct]
+        report_raise(ctx, e, 'load', kind, {'zero_row': zero_group_row(rec['particles'])}, where, spec)
+        return reached
+    reached.add('load')
     rec2 = ABS[kind](m2)
-    rec2_direct = ABS[kind](m2, direct) if kind != 'sbm' else dict(rec2, particles=direct)
-    job.add('SaveLoad.%s.load' % kind, args, 'model', {'real': rec2_direct, 'kind': kind, 'what': tag})
+    # the model's load_sim: for the bent plume model the particle state after the LagElement reset is an input
+    job.add('SaveLoad.%s.load' % kind, args + (pstates(m2) if kind == 'bpm' else []), 'model',
+            {'real': rec2, 'kind': kind, 'what': tag})
     for k in ARRAYS[kind]:
         arr = getattr(m2, k)
         if isinstance(arr, np.ma.MaskedArray) and np.ma.getmaskarray(arr).any():
             ctx.violation('array:%s:masked' % k, '%s: reloaded %s has masked entries' % (where, k), {'spec': sc.jsonable(spec)})
         ctx.evaluations += int(np.size(arr))
-    report_losses(ctx, diff_model(kind, rec, rec2, GROUP_TOL, state=False), rec['particles'], where, spec)
+    report_losses(ctx, diff_model(kind, rec, rec2, GROUP_TOL, state=False), rec['particles'], where, spec,
+                  chem=rec.get('chem_names', rec.get('composition')), skip=skip)
+    if kind == 'bpm':
+        # the end-of-simulation state the file holds is overwritten by LagElement.update(t[0], q[0]) at load time:
+        # not a definition field (recorded, not a violation of the property's predicate)
+        for pa, pb in zip(rec['particles'], rec2['particles']):
+            if any(not same(pa[k], pb[k]) for k in ('tp', 'xp', 'yp', 'zp')) or pa['integrate'] != pb['integrate']:
+                ctx.count('bpm particle state (integrate,t,x,y,z) reset by load_sim')
     # --- far-field single-particle simulations stored beside the bent-plume file
     if kind == 'bpm':
         for i, p, q in farfield_pairs(m, m2):
@@ -922,40 +1049,70 @@ def check_sim(ctx, job, cdir, kind, m, spec, tag):
                 ctx.violation('not-restored:farfield.sbm', '%s: tracked particle %d has no sbm after load' % (where, i), {'spec': sc.jsonable(spec)})
                 continue
             ra, rb = abs_sbm(p.sbm), abs_sbm(q.sbm)
-            report_losses(ctx, diff_model('sbm', ra, rb, GROUP_TOL, state=False), ra['particles'], where + ' far-field track of particle %d' % i, spec, prefix='')
+            report_losses(ctx, diff_model('sbm', ra, rb, GROUP_TOL, state=False), ra['particles'],
+                          where + ' far-field track of particle %d' % i, spec, chem=ra['composition'])
             fs = f1.split('.nc')[0] + '%3.3d.nc' % i
             ds = dump_nc(fs)
             job.add('SaveLoad.sbm.save', enc_header(header_of(ds)) + enc_sbm(ra), 'file', {'real': ds, 'what': tag + ' far-field %d' % i, 'skip': ()})
     # --- re-save, re-load
     f2 = os.path.join(cdir, 'sim2.nc')
+
+    def sbms(mm):
+        if kind == 'sbm':
+            return [mm]
+        if kind == 'bpm':
+            return [p.sbm for p in mm.particles if p.farfield and hasattr(p, 'sbm')]
+        return []
+
+    resaved = False
     try:
         with sc.quiet():
             m2.save_sim(f2, 'prf.nc', 'C18 profile info')
-        d2 = dump_nc(f2)
-        # the model's writer on the reloaded object (its particles carry the state LagElement.update gave them)
-        job.add('SaveLoad.%s.save' % kind, enc_header(header_of(d2)) + ENC[kind](rec2), 'file',
-                {'real': d2, 'what': 're-saved ' + tag, 'skip': ()})
-        state_vars = ('integrate', 'tp', 'xp', 'yp', 'zp')     # state of a bent-plume particle, not its definition
-        soft = [x for x in diff_files(d1, d2, skip_attr_values=DATE_ATTRS)
-                if 'delta_groups' not in x and not any(x.startswith('variable %s ' % v) for v in state_vars)]
-        if soft:
-            ctx.violation('resave-differs:' + kind, '%s: saving the reloaded simulation gives a different file' % where,
-                          {'differences': soft[:5], 'spec': sc.jsonable(spec)})
-        with sc.quiet():
-            m3 = Model(simfile=f2)
-        for field, a, b in diff_model(kind, rec2, ABS[kind](m3), GROUP_TOL, state=False):
-            ctx.violation('reload-differs:' + field, '%s: second reload differs from the first in %s' % (where, field),
-                          {'field': field, 'first': a, 'second': b, 'spec': sc.jsonable(spec)})
+        resaved = True
     except Exception as e:
-        tr = traceback.format_exc()
-        key = 'resave-raises:sbm' if 'single_bubble_model.py' in tr else 'resave-raises:' + kind
-        if kind == 'sbm' and not os.path.exists(f2 + '.done'):
+        key = report_raise(ctx, e, 'resave', kind, {'k_t0_0d': any(is_0d(x.K_T0) for x in sbms(m2))}, where, spec)
+        if kind == 'sbm':
             job.add('SaveLoad.sbm.save', enc_header(h) + enc_sbm(rec2), 'raises', {'what': 're-saving reloaded ' + tag})
-        ctx.count('violation ' + key)
-        case = {'error': '%s: %s' % (type(e).__name__, e), 'trace': tr[-600:], 'spec': sc.jsonable(spec)}
-        if key in REPRO:
-            case['stand_alone_reproduction'] = REPRO[key]
-        ctx.violation(key, '%s: re-saving / re-loading the reloaded simulation raises %s' % (where, type(e).__name__), case)
+        if key == 'resave-raises:sbm':
+            # bypass of the recorded defect: hand K_T0 over as the float the writer expects
+            for x in sbms(m2):
+                x.K_T0 = float(fnum(x.K_T0))
+            ctx.count('bypass: K_T0 of the reloaded single-particle model converted to float')
+            f2 = os.path.join(cdir, 'sim2b.nc')   # the failed writer left the first file open
+            try:
+                with sc.quiet():
+                    m2.save_sim(f2, 'prf.nc', 'C18 profile info')
+                resaved = True
+            except Exception as e2:
+                report_raise(ctx, e2, 'resave', kind, {}, where + ' (K_T0 bypassed)', spec)
+    if resaved:
+        reached.add('resave')
+        try:
+            rec2b = ABS[kind](m2)
+            d2 = dump_nc(f2)
+            # the model's writer on the reloaded object (its particles carry the state LagElement.update gave them)
+            job.add('SaveLoad.%s.save' % kind, enc_header(header_of(d2)) + ENC[kind](rec2b), 'file',
+                    {'real': d2, 'what': 're-saved ' + tag, 'skip': ()})
+            state_vars = ('integrate', 'tp', 'xp', 'yp', 'zp')     # state of a bent-plume particle, not its definition
+            soft = [x for x in diff_files(d1, d2, skip_attr_values=DATE_ATTRS)
+                    if 'delta_groups' not in x and not any(x.startswith('variable %s ' % v) for v in state_vars)]
+            if soft:
+                ctx.violation('resave-differs:' + kind, '%s: saving the reloaded simulation gives a different file' % where,
+                              {'differences': soft[:5], 'spec': sc.jsonable(spec)})
+            with sc.quiet():
+                m3 = Model(simfile=f2)
+            reached.add('reload')
+            for field, a, b in diff_model(kind, rec2, ABS[kind](m3), GROUP_TOL, state=False):
+                ctx.violation('reload-differs:' + field, '%s: second reload differs from the first in %s' % (where, field),
+                              {'field': field, 'first': a, 'second': b, 'spec': sc.jsonable(spec)})
+            if kind == 'bpm':
+                for i, p, q in farfield_pairs(m2, m3):
+                    if hasattr(p, 'sbm') and hasattr(q, 'sbm'):
+                        for field, a, b in diff_model('sbm', abs_sbm(p.sbm), abs_sbm(q.sbm), GROUP_TOL, state=False):
+                            ctx.violation('reload-differs:farfield.' + field, '%s: far-field track %d differs after the second reload' % (where, i),
+                                          {'field': field, 'spec': sc.jsonable(spec)})
+        except Exception as e:
+            report_raise(ctx, e, 'reload', kind, {}, where, spec)
     # --- text export carries the same numbers as the binary file
     try:
         base = os.path.join(cdir, 'txt')
@@ -974,9 +1131,9 @@ def check_sim(ctx, job, cdir, kind, m, spec, tag):
                 tab = np.atleast_2d(np.loadtxt(base + '%3.3d.txt' % i))
                 if not (same(tab[:, 0], farr(p.sbm.t)) and same(tab[:, 1:], farr(p.sbm.y))):
                     ctx.violation('txt-differs:bpm.farfield', '%s: far-field text export differs' % where, {'spec': sc.jsonable(spec)})
+        reached.add('txt')
     except Exception as e:
-        ctx.violation('save_txt-raises:' + kind, '%s: save_txt / reading it back raises %s' % (where, type(e).__name__),
-                      {'error': '%s: %s' % (type(e).__name__, e), 'trace': traceback.format_exc()[-600:], 'spec': sc.jsonable(spec)})
+        report_raise(ctx, e, 'save_txt', kind, {}, where, spec)
     # --- the re-attached profile interpolates like the one the simulation used
     r = np.random.default_rng(spec['profile']['zseed'] + 7)
     zz = r.uniform(-10., spec['profile']['H'] + 20., 100)
@@ -989,19 +1146,21 @@ def check_sim(ctx, job, cdir, kind, m, spec, tag):
     try:
         with sc.quiet():
             m.save_sim(f3, 'moved_away.nc', 'C18 profile info')
-            m4 = Model(simfile=f3)
-        ctx.count('no-profile load ok ' + kind)
-        for k in ARRAYS[kind]:
-            if not same(farr(getattr(m4, k)), rec[k]):
-                ctx.violation('array:' + k, '%s: %s differs after loading without the profile file' % (where, k), {'spec': sc.jsonable(spec)})
     except Exception as e:
-        key = 'load-raises:%s:no-profile' % kind
-        ctx.count('violation ' + key)
-        case = {'error': '%s: %s' % (type(e).__name__, e), 'trace': traceback.format_exc()[-500:], 'spec': sc.jsonable(spec)}
-        if key in REPRO:
-            case['stand_alone_reproduction'] = REPRO[key]
-        ctx.violation(key, '%s: load_sim raises %s when the profile file named in the save file is absent (documented: continues with a warning)' % (where, type(e).__name__), case)
+        report_raise(ctx, e, 'save', kind, {}, where + ' (profile path changed)', spec)
+    else:
+        try:
+            with sc.quiet():
+                m4 = Model(simfile=f3)
+            ctx.count('no-profile load ok ' + kind)
+            for k in ARRAYS[kind]:
+                if not same(farr(getattr(m4, k)), rec[k]):
+                    ctx.violation('array:' + k, '%s: %s differs after loading without the profile file' % (where, k), {'spec': sc.jsonable(spec)})
+        except Exception as e:
+            report_raise(ctx, e, 'load', kind, {'no_profile': kind == 'bpm' and "'NoneType' object has no attribute 'get_values'" in str(e)},
+                         where + ' (profile file absent; documented: continues with a warning)', spec)
     ctx.evaluations += 1
+    return reached
 
 
 def layout_key(kind, rec):
@@ -1012,15 +1171,16 @@ def layout_key(kind, rec):
 
 
 def sim_plan(ctx):
-    """(kind, builder kwargs) — the quantifier's corners first, then random"""
+    """(kind, builder kwargs): every model x particle kind first (each must reach re-save and re-load), the
+    quantifier's corners (0-3 tracers, tracking, currents), then random"""
     r = ctx.rng
     plan = [('sbm', {'kind': 'soluble'}), ('sbm', {'kind': 'inert'}),
             ('bpm', {'kind': 'mixed', 'ntracers': 1, 'track': False, 'current': 0.2}),
             ('bpm', {'kind': 'soluble', 'ntracers': r.choice([2, 3]), 'track': True, 'current': 0.1}),
-            ('bpm', {'kind': 'inert', 'ntracers': 0, 'track': False, 'current': 0.}),
-            ('spm', {'kind': r.choice(['mixed', 'soluble'])})]
-    extra = ctx.n(0, 54)
-    for i in range(extra):
+            ('bpm', {'kind': 'inert', 'ntracers': r.choice([1, 2]), 'track': r.random() < 0.5, 'current': 0.05}),
+            ('bpm', {'kind': r.choice(['inert', 'mixed']), 'ntracers': 0, 'track': False, 'current': 0.}),
+            ('spm', {'kind': 'soluble'}), ('spm', {'kind': 'inert'}), ('spm', {'kind': 'mixed'})]
+    for i in range(ctx.n(0, 51)):
         plan.append((('sbm', 'bpm', 'spm', 'bpm', 'sbm', 'spm')[i % 6], {}))
     return plan
 
@@ -1057,6 +1217,13 @@ def _run(ctx, lean_ok, tmp):
                 ctx.count('list mixed user data: %s first%s' % ('with' if with_first else 'without', ', inert between' if inert_between else ''))
                 ctx.nontrivial.add(('list-mixed-ud', ptype, with_first, inert_between, tuple(spec['composition'])))
                 k += 1
+    # ---- A''. soluble particles whose own composition is not the list's chem_names (another order / fewer compounds)
+    for ptype in (1, 2):
+        for variant in ('reordered', 'subset'):
+            spec = sc.composition_variant_list_spec(rng, ptype, variant)
+            check_particle_list(ctx, job, tmp, k, spec)
+            ctx.nontrivial.add(('list-composition', ptype, variant, tuple(spec['composition'])))
+            k += 1
     # ---- B. profile files -------------------------------------------------------------------------
     for i in range(ctx.n(3, 40)):
         ps = sc.profile_spec(rng, chems=rng.choice([(), ('oxygen',), ('methane', 'oxygen')]))
@@ -1069,6 +1236,7 @@ def _run(ctx, lean_ok, tmp):
     # ---- C. real simulations ---------------------------------------------------------------------
     mk = {'sbm': sc.sbm_spec, 'bpm': sc.bpm_spec, 'spm': sc.spm_spec}
     done = {}
+    cov = {}
     for n, (kind, kw) in enumerate(sim_plan(ctx)):
         m = spec = None
         for attempt in range(6):
@@ -1110,11 +1278,22 @@ def _run(ctx, lean_ok, tmp):
         if n < 4:
             ctx.sample({'simulation': kind, 'kind': spec['kind'], 'rows': int(len(rec[ARRAYS[kind][0]])),
                         'state vector': int(np.shape(rec[ARRAYS[kind][1]])[1]), 'particles': len(rec['particles'])})
-        check_sim(ctx, job, cdir, kind, m, spec, tag)
+        reached = check_sim(ctx, job, cdir, kind, m, spec, tag)
+        for st in reached:
+            cov.setdefault((kind, spec['kind']), set()).add(st)
+        if kind == 'bpm' and spec['track'] and any(p.farfield for p in m.particles) and 'reload' in reached:
+            cov.setdefault(('bpm', 'tracked'), set()).add('reload')
         shutil.rmtree(cdir, ignore_errors=True)
     for kind in ('sbm', 'bpm', 'spm'):
         ctx.oblige('at least one completed %s simulation was saved and reloaded (the check is not vacuous)' % kind,
                    done.get(kind, 0) > 0, 'none of the planned %s simulations completed' % kind)
+    # coverage matrix: model x particle kind, all the way to the second reload (recorded defects on the way are bypassed)
+    need = [('sbm', 'soluble'), ('sbm', 'inert'), ('bpm', 'soluble'), ('bpm', 'inert'), ('bpm', 'mixed'), ('bpm', 'tracked'),
+            ('spm', 'soluble'), ('spm', 'inert'), ('spm', 'mixed')]
+    for kk in need:
+        ctx.oblige('coverage: %s / %s reached save -> load -> re-save -> re-load' % kk, 'reload' in cov.get(kk, ()),
+                   'stages reached: %r' % sorted(cov.get(kk, ())))
+    ctx.notes.append('stages reached per model x kind: %r' % {'%s/%s' % k: sorted(v) for k, v in sorted(cov.items())})
     # ---- D. the Lean model on the same records -----------------------------------------------------
     if not lean_ok:
         return
